@@ -362,7 +362,12 @@ func (h *handler) handleMessage(ctx context.Context, msg hwebsocket.Msg, respond
 }
 
 func (h *handler) disconnect(err error) {
-	h.disconnectChan <- err
+	select {
+	case h.disconnectChan <- err:
+	default:
+		// A disconnection is already pending: the connection loop is the only
+		// reader of disconnectChan, blocking here would wedge it.
+	}
 }
 
 func (h *handler) handleDisconnect(err error) {
